@@ -25,7 +25,9 @@ RULE = (
     "oracle with the training column given as object / str / category (sorted or reversed declared order) and the "
     "follow-up column as str / string[pyarrow] / category whose declared categories are the values present, the "
     "trained levels plus the new ones, the reversed union, or the union plus a never-occurring extra category -- the "
-    "recorded levels must govern whatever the follow-up column declares.  Non-trivial = the follow-up loses a level, gains a "
+    "recorded levels must govern whatever the follow-up column declares.  Depth 1 also references A through the "
+    "pass-through Python factors I(A), Q('A'), {A}; depth 2 also hands the second frame to the spec attached to the "
+    "FIRST FOLLOW-UP MATRIX (mm1.model_spec) instead of the training spec.  Non-trivial = the follow-up loses a level, gains a "
     "level or changes kind relative to the training column (counted per application)."
 )
 ASSUMPTIONS = [
@@ -46,6 +48,11 @@ FORMULAS = ["A", "a", "A:a", "A:B", "C(A)", "a + A", "C(A, contr.sum)"]
 VARIES = {"A": ["A"], "a": ["a"], "A:a": ["A", "a"], "A:B": ["A"], "C(A)": ["A"], "a + A": ["A", "a"],
           "C(A, contr.sum)": ["A"]}
 C_FORMULAS = ("C(A)", "C(A, contr.sum)")
+# the same column referenced through a pass-through Python factor instead of a bare look-up: the recorded kind must
+# be enforced for these exactly as for `A`
+PASS_THROUGH = {"I(A)": "I(A)", "Q('A')": "Q('A')", "{A}": "A"}   # formula -> printed factor name
+for _f in PASS_THROUGH:
+    VARIES[_f] = ["A"]
 TRAIN_B = ["p", "q", "p"]
 TRAIN_a = [1.5, -2.0, 4.0]
 FOLLOW_a = [2.5, -1.0, 3.0]
@@ -109,6 +116,8 @@ def ref_columns(formula, tr, efr, levels=None):
     n = len(tr)
     LA, LB = (list(levels) if levels is not None else R.sorted_levels(tr)), R.sorted_levels(TRAIN_B[:n])
     fA, fB, fa = R.Factor("A", "A", "cat", LA), R.Factor("B", "B", "cat", LB), R.Factor("a", "a", "num")
+    if formula in PASS_THROUGH:
+        return R.design("f1", R.Factor(PASS_THROUGH[formula], "A", "cat", LA), full_rank=efr)
     if formula == "A":
         return R.design("f1", fA, full_rank=efr)
     if formula == "a":
@@ -154,8 +163,9 @@ def to_matrix(m):
     return [[float(v) for v in row] for row in arr.tolist()]
 
 
-def apply_spec(spec, frame):
-    """-> outcome: ('OK', names, matrix, n DataMismatchWarnings) | ('ERR', exception class name, message)"""
+def apply_spec(spec, frame, keep=None):
+    """-> outcome: ('OK', names, matrix, n DataMismatchWarnings) | ('ERR', exception class name, message)
+    keep: a list that receives the ModelSpec attached to the resulting matrix"""
     from formulaic.errors import DataMismatchWarning
 
     with warnings.catch_warnings(record=True) as rec:
@@ -169,6 +179,8 @@ def apply_spec(spec, frame):
         except (TypeError, ValueError) as e:
             return ("ERR-NONNUMERIC", type(e).__name__, str(e)[:200])
         names = [str(c) for c in m.model_spec.column_names]
+        if keep is not None:
+            keep.append(m.model_spec)
         obj = getattr(m, "__wrapped__", m)
         if isinstance(obj, pd.DataFrame) and [str(c) for c in obj.columns] != names:
             names = ["<frame columns %r != spec columns %r>" % (list(obj.columns), names)]
@@ -389,12 +401,16 @@ def drv_history(c, ctx, col):
     formula, efr, out, tr = choose_config(c, ctx)
     ev1 = choose_event(c, ctx, formula, "ev1")
     ev2 = choose_event(c, ctx, formula, "ev2")
+    # chain: the second frame is given to the spec ATTACHED TO THE FIRST FOLLOW-UP MATRIX (mm1.model_spec) instead
+    # of the training spec -- how specs travel through a pipeline of batches; nothing may change
+    chain = c.flag() if ctx.get("chain") else False
     spec, train_names = fit_checked(col, formula, tr, efr, out)
     d0 = spec_digest(spec)
     col.state(d0)
     frame1, rows1 = followup(tr, ev1)
     want1, nt1 = expectation(formula, tr, efr, ev1, rows1)
-    out1 = apply_spec(spec, frame1)
+    attached = []
+    out1 = apply_spec(spec, frame1, keep=attached)
     d1 = spec_digest(spec)
     col.state(d1)
     if d1 != d0:
@@ -404,6 +420,13 @@ def drv_history(c, ctx, col):
         col.count("step1-deviates (reported by the followup sub-check): " + sig1)
     frame2, rows2 = followup(tr, ev2)
     want2, nt2 = expectation(formula, tr, efr, ev2, rows2)
+    via = "training spec"
+    if chain:
+        if not attached:
+            col.count("chain-not-applicable (first application raised)")
+            raise Skip()
+        spec, via = attached[0], "spec attached to the first follow-up matrix"
+        col.state(spec_digest(spec))
     out2 = apply_spec(spec, frame2)
     col.state(spec_digest(spec))
     if nt1 or nt2:
@@ -411,10 +434,11 @@ def drv_history(c, ctx, col):
     col.sample({"formula": formula, "ensure_full_rank": efr, "output": out, "train_A": tr,
                 "history": [ev_str(ev1), ev_str(ev2)]})
     sig2 = judge(out2, want2, train_names)
-    key = "history :: %s efr=%s out=%s train=%r apply %s then %s" % (formula, efr, out, tr, ev_str(ev1), ev_str(ev2))
+    key = "history :: %s efr=%s out=%s train=%r apply %s then %s%s" % (
+        formula, efr, out, tr, ev_str(ev1), ev_str(ev2), " (via mm1.model_spec)" if chain else "")
     detail = {"formula": formula, "ensure_full_rank": efr, "output": out, "train_A": tr,
               "history": [ev_str(ev1), ev_str(ev2)], "training_columns": train_names, "got_first": out1, "got_second": out2,
-              "want_second": want2, "repro": repro(formula, tr, efr, out, [ev1, ev2])}
+              "want_second": want2, "second_applied_via": via, "repro": repro(formula, tr, efr, out, [ev1, ev2])}
     # what does the second frame give on a freshly fitted spec?
     fresh_spec = fit(formula, tr, efr, out) if (sig2 or ctx.get("always_fresh")) else None
     if fresh_spec is not None:
@@ -471,7 +495,8 @@ def contexts(tier, seed):
                         A_NUMERIC[0]],
                   "a": a_small[:3] + a_TEXT[:1]}
         first = {"A": text_events("A", "xyzw", 2) + A_NUMERIC[:1], "a": a_small[:3] + a_TEXT[:1]}
-        h = [{"outputs": ["pandas"], "trainings": [["y", "x"], full3], "ev1": first, "ev2": second, "name": "history"},
+        h = [{"outputs": ["pandas"], "trainings": [["y", "x"], full3], "ev1": first, "ev2": second, "name": "history",
+              "chain": True},
              {"outputs": ["pandas"], "trainings": [extra], "ev1": first, "ev2": second, "name": "history-seed-slice"}]
     else:
         f = {"outputs": ["pandas", "numpy", "sparse"],
@@ -479,7 +504,7 @@ def contexts(tier, seed):
              "ev1": {"A": text_events("A", "xyzw", 3) + A_NUMERIC, "a": num_events("a", a_VALUES, 3) + a_TEXT}}
         both = {"A": text_events("A", "xyzw", 2) + A_NUMERIC[:2], "a": a_small + a_TEXT[:2]}
         h = [{"outputs": ["pandas"], "trainings": [["x"], ["z"], ["y", "x"], ["z", "y"], full3], "ev1": both, "ev2": both,
-              "name": "history"},
+              "name": "history", "chain": True},
              {"outputs": ["numpy", "sparse"], "trainings": [["y", "x"], full3], "ev1": both, "ev2": both,
               "name": "history-numpy-sparse"}]
     return f, h
@@ -487,7 +512,9 @@ def contexts(tier, seed):
 
 def describe(ctx):
     trs = ctx["trainings"]
-    return {"formulas": FORMULAS, "outputs": ctx["outputs"],
+    return {"formulas": ctx.get("formulas", FORMULAS), "outputs": ctx["outputs"],
+            "second_application_via": ["training spec", "spec attached to the first follow-up matrix"] if ctx.get("chain")
+            else ["training spec"],
             "training_A_columns": {o: v for o, v in trs.items()} if isinstance(trs, dict) else trs,
             "first_followups": {k: len(v) for k, v in ctx["ev1"].items()},
             "second_followups": {k: len(v) for k, v in ctx.get("ev2", {}).items()} or None,
@@ -497,6 +524,7 @@ def describe(ctx):
 def subchecks(tier, seed):
     selftest()
     f, h = contexts(tier, seed)
+    f["formulas"] = FORMULAS + list(PASS_THROUGH)
     subs = [Sub("followup", drv_followup, f, shard_depth=4, bounds=describe(f))]
     quick = tier == "quick"
     r = {"outputs": ["pandas"] if quick else ["pandas", "sparse"],
